@@ -387,7 +387,7 @@ def build_overlay(dst, kani=True, replay=True, allow_unsafe=False):
         if kani and os.path.exists(kp):
             os.makedirs(os.path.join(dst, childdir), exist_ok=True)
             shutil.copy(kp, os.path.join(dst, childdir, 'verif_kani.rs'))
-            add += '\n#[cfg(kani)]\nmod verif_kani;\n'
+            add += '\n#[cfg(kani)]\npub(crate) mod verif_kani;\n'
         if replay and rfile:
             os.makedirs(os.path.join(dst, childdir), exist_ok=True)
             shutil.copy(os.path.join(VERIF, rfile), os.path.join(dst, childdir, 'verif_replay.rs'))
